@@ -7,7 +7,7 @@ import policy_corr as pc
 TRANSLATORS = []
 LEVEL = "proof"
 ASSUMPTIONS = [
-    "priorities are non-empty ASCII digit strings (where str.isdigit, int and Nat agree); other strings follow Python's mixed-type comparison and are outside the property",
+    "priorities are decimal integers: ASCII digits with an optional leading '-' (where int and Lean's Int agree); other strings follow Python's mixed-type comparison and are outside the property",
     "the enforcer has loaded its policy through an adapter (priority_index is computed by load_policy)",
     "subject-priority (hierarchy) ordering: see level text",
 ]
@@ -24,9 +24,17 @@ def rule(p, eft, sub="alice"):
 MATCHING = [rule(p, e) for p in PRIOS for e in ("allow", "deny")] + [rule("1", "audit")]  # a matching rule with an effect that never decides
 OTHER = [rule("2", "allow", "bob"), rule("1", "deny", "bob")]
 UNIVERSE = MATCHING + OTHER
+# negative priorities are numeric priorities too ("-10" < "-1" < "2"; as strings "-1" < "-10", and "-1" vs 2 does not compare)
+NEG_PRIOS = ["-1", "-10", "2"]
+UNIVERSE_NEG = [rule(p, e) for p in NEG_PRIOS for e in ("allow", "deny")] + [rule("-1", "deny", "bob")]
 
 
 def gen(ctx, deep):
+    return _gen(ctx, deep, UNIVERSE, "", 150, 400) + _gen(ctx, deep, UNIVERSE_NEG, "-neg", 25, 120)
+
+
+def _gen(ctx, deep, UNIVERSE, tag, nbig_quick, nbig_deep):
+    """tag: '' for the priorities 1, 2, 10; '-neg' for the universe with negative priorities (own shape names and signatures)"""
     rng = ctx["rng"]
     shapes_hists = []
     maxinit = 3 if not deep else 4
@@ -37,11 +45,11 @@ def gen(ctx, deep):
         # all of length <= 2, a seeded sample of length 3
         small = [i for i in inits if len(i) <= 2]
         big = [i for i in inits if len(i) > 2]
-        inits = small + rng.sample(big, 150)
+        inits = small + rng.sample(big, nbig_quick)
     else:
         small = [i for i in inits if len(i) <= 3]
         big = [i for i in inits if len(i) > 3]
-        inits = small + rng.sample(big, 400)
+        inits = small + rng.sample(big, nbig_deep)
     reads = [("get", "p", "p"), ("enforce", "p", "p", REQ), ("enforce", "p", "p", ["bob", "data1", "read"])]
     for init in inits:
         absent = [r for r in UNIVERSE if r not in init]
@@ -77,14 +85,16 @@ def gen(ctx, deep):
         for _ in range(nseq):
             h = [rng.choice(ops + [("add", "p", "p", r) for r in init]) for _ in range(rng.randint(2, 5))]
             hists.append(pc.interleave_reads(h, reads))
-        shape = pc.Shape("prio/enforcer", pc.PRIO, "p", "p", UNIVERSE, pi=0, pt=0, initial=init)
+        shape = pc.Shape(f"prio{tag}/enforcer", pc.PRIO, "p", "p", UNIVERSE, pi=0, pt=0, initial=init)
+        shape.sigtag = ":negative" if tag else ""
         shapes_hists.append((shape, hists))
         if len(init) >= 2 and (deep or rng.random() < 0.15):
             # the same histories on the SECOND policy definition of a model whose first one has no priority field
             def p2(o):
                 return (o[0], "p", "p2") + tuple(o[3:])
 
-            shape2 = pc.Shape("prio2/enforcer", pc.PRIO2, "p", "p2", UNIVERSE, pi=0, pt=0, initial=init)
+            shape2 = pc.Shape(f"prio2{tag}/enforcer", pc.PRIO2, "p", "p2", UNIVERSE, pi=0, pt=0, initial=init)
+            shape2.sigtag = ":negative" if tag else ""
             shapes_hists.append((shape2, [[p2(o) for o in h] for h in hists[:: 1 if deep else 3]]))
         if len(init) >= 2 and (deep or rng.random() < 0.15):
             # the same histories on a model whose priority field is the LAST one (p = sub, obj, act, eft, priority)
@@ -104,7 +114,8 @@ def gen(ctx, deep):
                     return o[:3] + (o[3] - 1,) + tuple(o[4:])
                 return o
 
-            shape3 = pc.Shape("prio-last/enforcer", pc.PRIO_LAST, "p", "p", [mv(r) for r in UNIVERSE], pi=4, pt=4, initial=[mv(r) for r in init])
+            shape3 = pc.Shape(f"prio-last{tag}/enforcer", pc.PRIO_LAST, "p", "p", [mv(r) for r in UNIVERSE], pi=4, pt=4, initial=[mv(r) for r in init])
+            shape3.sigtag = ":negative" if tag else ""
             shapes_hists.append((shape3, [[last(o) for o in h] for h in hists[:: 1 if deep else 3]]))
     return shapes_hists
 
@@ -132,6 +143,7 @@ e = subjectPriority(p_eft) || deny
 m = g(r.sub, p.sub, r.dom) && r.dom == p.dom && r.obj == p.obj && r.act == p.act
 """
 SNAMES = ["a", "b", "c", "d"]
+FILTERED_MODES = ["filtered", "filtered-inc", "filtered-async", "filtered-inc-async"]
 
 
 def _reach(g, x):
@@ -161,8 +173,18 @@ def _subject_case(args):
     m = casbin.Enforcer.new_model(text=text)
     rules = [("g", "g", r) for r in g] + [("p", "p", r) for r in p]
     ad = pc.make_adapter(casbin, rules)
+    tmpd = None
     try:
-        if bulk:
+        if bulk in ("filtered", "filtered-inc", "filtered-async", "filtered-inc-async"):
+            # the same policy in a file, loaded through the bundled FilteredFileAdapter: one filtered load selecting every
+            # permission rule (all are on data1), or the role assignments first and the permission rules incrementally
+            e, tmpd = _filtered_enforcer(casbin, m, [["g"] + list(r) for r in g] + [["p"] + list(r) for r in p], bulk.endswith("-async"))
+            if bulk.startswith("filtered-inc"):
+                _fload(e, "loadf", ["", "no-such-object"], [])
+                _fload(e, "loadinc", ["", "data1"], ["no-such-subject"])
+            else:
+                _fload(e, "loadf", ["", "data1"], [])
+        elif bulk:
             # the bulk-load pattern: automatic link building off, load, then one explicit build_role_links
             e = casbin.Enforcer(m)
             e.enable_auto_build_role_links(False)
@@ -173,6 +195,11 @@ def _subject_case(args):
             e = casbin.Enforcer(m, ad)
     except Exception as ex:  # noqa
         return {"error": "!cycle" if "cycle dependency" in str(ex) else f"!other:{type(ex).__name__}:{str(ex)[:60]}"}
+    finally:
+        if tmpd:
+            import shutil
+
+            shutil.rmtree(tmpd, ignore_errors=True)
     order = [list(r) for r in e.get_policy()]
     dec = {}
     for x in SNAMES:
@@ -182,6 +209,63 @@ def _subject_case(args):
         except Exception as ex:  # noqa
             dec[x] = f"!{type(ex).__name__}"
     return {"order": order, "dec": dec}
+
+
+def _filtered_enforcer(casbin, m, lines, is_async):
+    """Enforcer / AsyncEnforcer over a FilteredFileAdapter on a temp file holding `lines` (nothing is loaded yet)"""
+    import os
+    import tempfile
+
+    from casbin.persist.adapters import FilteredFileAdapter
+
+    d = tempfile.mkdtemp(prefix="c07f_")
+    path = os.path.join(d, "policy.csv")
+    with open(path, "w") as f:
+        f.write("\n".join(", ".join(r) for r in lines) + "\n")
+    inner = FilteredFileAdapter(path)
+    if not is_async:
+        return casbin.Enforcer(m, inner), d
+    from casbin.persist.adapters.asyncio import AsyncAdapter
+
+    class AsyncFiltered(AsyncAdapter):
+        def __init__(self, inner):
+            self.inner = inner
+
+        def is_filtered(self):
+            return self.inner.is_filtered()
+
+        async def load_policy(self, model):
+            return self.inner.load_policy(model)
+
+        async def load_filtered_policy(self, model, filter):
+            return self.inner.load_filtered_policy(model, filter)
+
+        async def save_policy(self, model):
+            return self.inner.save_policy(model)
+
+        async def add_policy(self, sec, ptype, rule):
+            pass
+
+        async def remove_policy(self, sec, ptype, rule):
+            pass
+
+        async def remove_filtered_policy(self, sec, ptype, field_index, *field_values):
+            pass
+
+    return casbin.AsyncEnforcer(m, AsyncFiltered(inner)), d
+
+
+def _fload(e, kind, fp, fg):
+    import asyncio
+
+    import enf_corr as ec
+    from casbin.persist.adapters.filtered_file_adapter import Filter
+
+    flt = Filter()
+    flt.P, flt.G = list(fp), list(fg)
+    r = (e.load_filtered_policy if kind == "loadf" else e.load_increment_filtered_policy)(flt)
+    if asyncio.iscoroutine(r):
+        ec.run_async(r)
 
 
 def run_subject(ctx, res, deep):
@@ -219,6 +303,9 @@ def run_subject(ctx, res, deep):
                     cases.append((gg, p, dom, True))
                 if len(cases) % 7 == 0:
                     cases.append((gg, p, dom, False, True))  # field names other than sub / obj
+                if len(cases) % 4 == 1:
+                    # "after loading" includes the filtered loads (sync and async twins have their own code)
+                    cases.append((gg, p, dom, FILTERED_MODES[len(cases) // 4 % 4]))
     # deep hierarchies: the level of a subject is not bounded by the role manager's depth bound
     global SNAMES_DEEP
     for depth in (9, 10, 11, 12, 14):
@@ -230,6 +317,7 @@ def run_subject(ctx, res, deep):
             p = [[names[hi], "data1", "read", "deny"], [names[hi - 1], "data1", "read", "allow"], [names[0], "data1", "read", "deny"], [names[hi - 2], "data1", "read", "deny"]]
             cases.append((g, p, False))
             cases.append((g, p, False, True))
+            cases.append((g, p, False, FILTERED_MODES[(depth + hi) % 4]))
     with mp.Pool(12) as pool:
         outs = pool.map(_subject_case, cases, chunksize=32)
     lines = []
@@ -245,15 +333,17 @@ def run_subject(ctx, res, deep):
         res.count("subject:" + ("cycle" if mres == "!cycle" else "sorted"))
         res.nontrivial.add(hash(("subj", repr(g), repr(p))))
         ren = len(cfull) > 4 and cfull[4]
-        case = {"shape": "subject-priority" + ("-dom" if dom else ""), "g": g, "p": p, "bulk": len(cfull) > 3 and cfull[3], "renamed": ren}
-        res.count("subject-load:" + ("bulk" if case["bulk"] else "constructor") + (":renamed-fields" if ren else ""))
+        mode = cfull[3] if len(cfull) > 3 else False
+        case = {"shape": "subject-priority" + ("-dom" if dom else ""), "g": g, "p": p, "bulk": mode, "renamed": ren}
+        res.count("subject-load:" + (("bulk" if mode is True else mode) if mode else "constructor") + (":renamed-fields" if ren else ""))
+        ftag = (":" + mode.replace("-async", "")) if isinstance(mode, str) else ""  # filtered / filtered-inc (the twins share a signature)
         if mres == "!fuel":
             raise common.Infra("hierarchyLoop ran out of fuel")
         if "error" in out:
             if out["error"] != mres:
                 res.disagree({"what": f"subject priority load: impl {out['error']} vs model {mres}", "case": case})
             if mres != "!cycle":
-                res.violation({"signature": "C07:subject:load-raises", "what": f"loading the acyclic hierarchy {g} raised {out['error']}", "case": case, "expected": "loads", "observed": out["error"], "model_text": SUBJ_DOM if dom else SUBJ, "kind_of_case": "subject"})
+                res.violation({"signature": "C07:subject:load-raises" + ftag, "what": f"loading the acyclic hierarchy {g} raised {out['error']}", "case": case, "expected": "loads", "observed": out["error"], "model_text": SUBJ_DOM if dom else SUBJ, "kind_of_case": "subject"})
             continue
         if mres == "!cycle":
             res.disagree({"what": f"subject priority load: impl loaded a cyclic hierarchy {g}, the model raises", "case": case})
@@ -272,7 +362,7 @@ def run_subject(ctx, res, deep):
             if bad:
                 break
         if bad:
-            res.violation({"signature": "C07:subject:ancestor-first", "what": f"subject priority: with assignments {g} the rule {bad[0]} of an inherited role is stored before the rule {bad[1]} of the more specific subject", "case": case, "expected": "subject before its ancestors", "observed": order, "model_text": SUBJ_DOM if dom else SUBJ, "kind_of_case": "subject"})
+            res.violation({"signature": "C07:subject:ancestor-first" + ftag, "what": f"subject priority: with assignments {g} the rule {bad[0]} of an inherited role is stored before the rule {bad[1]} of the more specific subject", "case": case, "expected": "subject before its ancestors", "observed": order, "model_text": SUBJ_DOM if dom else SUBJ, "kind_of_case": "subject"})
             continue
         # the more specific subject wins: first definite match in the stored order decides (C01)
         for x in SNAMES:
@@ -285,9 +375,120 @@ def run_subject(ctx, res, deep):
                     exp = r[-1] == "allow"
                     break
             if out["dec"][x] != exp:
-                res.violation({"signature": "C07:subject:decision", "what": f"subject priority: assignments {g}, stored order {order}: enforce({x}, data1, read) = {out['dec'][x]}, the first definite matching rule gives {exp}", "case": case, "expected": exp, "observed": out["dec"][x], "model_text": SUBJ_DOM if dom else SUBJ, "kind_of_case": "subject"})
+                res.violation({"signature": "C07:subject:decision" + ftag, "what": f"subject priority: assignments {g}, stored order {order}: enforce({x}, data1, read) = {out['dec'][x]}, the first definite matching rule gives {exp}", "case": case, "expected": exp, "observed": out["dec"][x], "model_text": SUBJ_DOM if dom else SUBJ, "kind_of_case": "subject"})
                 break
     res.sample({"subject_priority_case": {"g": cases[len(cases) // 2][0], "p": cases[len(cases) // 2][1]}})
+
+
+# ------------------------------------------------------------------ explicit priority: filtered and incremental loads
+
+
+def _fmatch(rule, fp):
+    return all(v == "" or (i < len(rule) and rule[i] == v) for i, v in enumerate(fp))
+
+
+def _prio_filtered_case(args):
+    """rows of a policy file, a sequence of load_filtered_policy / load_increment_filtered_policy calls with DISJOINT
+    selections (the loader appends what it is given; repeated rows are C06/C12's business): stored order and two
+    decisions after every load"""
+    rows, steps, is_async = args
+    casbin = common.use_repo()
+    m = casbin.Enforcer.new_model(text=pc.PRIO)
+    e, tmpd = _filtered_enforcer(casbin, m, [["p"] + list(r) for r in rows], is_async)
+    out = []
+    try:
+        for kind, fp in steps:
+            try:
+                _fload(e, kind, fp, [])
+                ret = "ok"
+            except Exception as ex:  # noqa
+                ret = "!" + type(ex).__name__
+            dec = []
+            for req in (REQ, ["bob", "data1", "read"]):
+                try:
+                    dec.append("T" if e.enforce(*req) else "F")
+                except Exception as ex:  # noqa
+                    dec.append("!" + type(ex).__name__)
+            out.append({"ret": ret, "order": [list(r) for r in e.get_policy()], "dec": dec})
+    finally:
+        import shutil
+
+        shutil.rmtree(tmpd, ignore_errors=True)
+    return out
+
+
+def _prio_filtered_expect(rows, steps):
+    """what the property demands: after every load the stored rules are the stable sort, by numeric priority, of their
+    arrival order (what was held, then what the load brought in file order); the first definite match decides"""
+    mem, out = [], []
+    for kind, fp in steps:
+        sel = [list(r) for r in rows if _fmatch(r, fp)]
+        arrival = sel if kind == "loadf" else mem + sel
+        mem = sorted(arrival, key=lambda r: int(r[0]))
+        shape = pc.Shape("prio-filtered", pc.PRIO, "p", "p", UNIVERSE, pi=0, pt=0)
+        out.append({"arrival": arrival, "order": mem, "dec": [pc.first_match_decision(mem, req, shape) for req in (REQ, ["bob", "data1", "read"])]})
+    return out
+
+
+def run_prio_filtered(ctx, res, deep):
+    import multiprocessing as mp
+
+    rng = ctx["rng"]
+    cases = []
+
+    def schemes(rows):
+        prios = sorted({r[0] for r in rows}, key=int)
+        subs = sorted({r[1] for r in rows})
+        out = []
+        for vals, mk in ((prios, lambda v: [v]), (subs, lambda v: ["", v])):
+            for perm in itertools.permutations(vals):
+                out.append([("loadf", mk(perm[0]))] + [("loadinc", mk(v)) for v in perm[1:]])
+        out.append([("loadf", ["", "", "data1"])])  # one filtered load selecting everything
+        return out
+
+    for a, b in itertools.permutations(UNIVERSE, 2):
+        for st in schemes([a, b]):
+            cases.append(([a, b], st, False))
+    for _ in range(250 if not deep else 2500):
+        rows = rng.sample(UNIVERSE, rng.randint(3, 6))
+        st = rng.choice(schemes(rows))
+        cases.append((rows, st, rng.random() < 0.4))
+    with mp.Pool(12) as pool:
+        outs = pool.map(_prio_filtered_case, cases, chunksize=16)
+    # the Lean model's load sort over the same arrival orders
+    lines, exps = [], []
+    for rows, steps, _ in cases:
+        ex = _prio_filtered_expect(rows, steps)
+        exps.append(ex)
+        for x in ex:
+            lines += ["#reset", "\t".join(["set", "p:p", common.enc_rules(x["arrival"])]), "\t".join(["sortprio", "p:p", "0"])]
+    answers = common.run_driver("policy", lines)
+    k0 = 0
+    for (rows, steps, is_async), out, ex in zip(cases, outs, exps):
+        res.nontrivial.add(hash(("prio-filtered", repr(rows), repr(steps), is_async)))
+        base, k0 = k0, k0 + len(steps)
+        for i, ((kind, fp), o, x) in enumerate(zip(steps, out, ex)):
+            model, _ = common.parse_ms(answers[3 * (base + i) + 2])
+            mpol = model.split("@", 1)[1]
+            res.evaluations += 1
+            res.count("filtered-load:" + kind + (":async" if is_async else ""))
+            case = {"rows": rows, "steps": [list(s) for s in steps[: i + 1]], "async": is_async}
+            if common.enc_rules(x["order"]) != mpol:
+                res.model_vs_spec.append({"case": case, "model": mpol, "spec": common.enc_rules(x["order"])})
+            if common.enc_rules(o["order"]) != mpol:
+                res.disagree({"what": f"{kind}: stored order {o['order']} differs from Model/Policy.lean sortByPriority {common.dec_rules(mpol)}", "case": case})
+            bad = None
+            if o["ret"] != "ok":
+                bad, what = "raises", f"raised {o['ret']}"
+            elif o["order"] != x["order"]:
+                bad, what = "order", f"stored {[r[0] + '/' + r[1] for r in o['order']]}, ascending stable priority order is {[r[0] + '/' + r[1] for r in x['order']]}"
+            elif o["dec"] != x["dec"]:
+                bad, what = "decision", f"decisions {o['dec']}, the first definite match in priority order gives {x['dec']}"
+            if bad:
+                res.violation({"signature": f"C07:{kind}:{bad}", "kind_of_case": "prio-filtered", "what": f"explicit-priority model, file rows {rows}, {'AsyncEnforcer' if is_async else 'Enforcer'} over FilteredFileAdapter, loads {[list(s) for s in steps[: i + 1]]}: {what}",
+                               "case": case, "expected": [x["order"], x["dec"]], "observed": [o["ret"], o["order"], o["dec"]], "model_text": pc.PRIO})
+                break
+    res.sample({"prio_filtered_case": {"rows": cases[len(cases) // 2][0], "steps": cases[len(cases) // 2][1]}})
 
 
 def run(ctx):
@@ -297,6 +498,7 @@ def run(ctx):
         items = gen(ctx, deep)
         run_many(res, items)
         run_subject(ctx, res, deep)
+        run_prio_filtered(ctx, res, deep)
         if res.spec_violations:
             break
     res.rule = (
@@ -306,7 +508,11 @@ def run(ctx):
         "of 2-5 of them; after every call the stored order (get_policy) and two decisions are compared with the Lean model and with the "
         "specification (stable sort of the arrival order; first definite match decides); subject priority: all 625 parent functions on 4 subjects "
         "(125 rooted forests + the cyclic ones, which must raise) and sampled DAGs x effect assignments x shuffled arrival orders, with and without "
-        "domains: stored order vs model, no ancestor's rule before a descendant's, decisions vs first definite match; non-trivial = history with a mutating call / a policy"
+        "domains: stored order vs model, no ancestor's rule before a descendant's, decisions vs first definite match; the same histories over a rule universe with NEGATIVE priorities (-1, -10, 2); the filtered loads: "
+        "explicit priority - policy files (all ordered pairs + random 3-6 rows) read through FilteredFileAdapter by load_filtered_policy + "
+        "load_increment_filtered_policy with disjoint selections (by priority value, by subject, in every order), Enforcer and AsyncEnforcer, stored "
+        "order and decisions after every load; subject priority - a quarter of the cases also through one filtered load / role assignments first "
+        "then the permission rules incrementally, sync and async; non-trivial = history with a mutating call / a policy"
     )
     res.exhaustive = True
     return res
@@ -345,6 +551,11 @@ def _work(group):
 
 
 def replay(obj):
+    if obj.get("kind_of_case") == "prio-filtered":
+        c = obj["case"]
+        steps = [(s[0], s[1]) for s in c["steps"]]
+        o = _prio_filtered_case((c["rows"], steps, c["async"]))[-1]
+        return [o["order"], o["dec"]] != obj["expected"] or o["ret"] != "ok"
     if obj.get("kind_of_case") == "subject":
         c = obj["case"]
         out = _subject_case((c["g"], c["p"], c["shape"].endswith("-dom"), c.get("bulk", False), c.get("renamed", False)))
